@@ -136,7 +136,7 @@ def monitor(contract, ncases, rng, on_case=None):
         for nm, d in contract.defaults.items():
             bindings.setdefault(nm, eval(d))
         for gname, (gtype, gexpr) in contract.ghost.items():
-            bindings[gname] = rtc.evaluate(contract, gexpr, dict(bindings), case.get("universe"))
+            bindings[gname] = case["ghost"][gname] if gname in case.get("ghost", {}) else rtc.evaluate(contract, gexpr, dict(bindings), case.get("universe"))
         if not rtc.satisfies_pre(contract, bindings, case.get("universe")):
             if getattr(contract, "pre_must_hold", False):
                 # the generator builds its inputs through the public API only: every one of them is a
@@ -150,7 +150,7 @@ def monitor(contract, ncases, rng, on_case=None):
         n += 1
         desc = case.get("describe") or repr((args, kwargs))[:400]
         try:
-            rtc.check_call(contract, fn, args, kwargs, universe=case.get("universe"), check_pre=False, self_obj=self_obj)
+            rtc.check_call(contract, fn, args, kwargs, universe=case.get("universe"), check_pre=False, self_obj=self_obj, ghost=case.get("ghost"))
         except rtc.ContractViolation as cv:
             return n, {"clause": cv.clause, "kind": cv.kind, "detail": cv.detail[:500], "input": desc,
                        "case_seed": case_seed, "target": contract.key, "module": contract.module}
@@ -169,7 +169,7 @@ def replay_monitor(body):
     fn, cls = resolve_target(c.target)
     case = c.gen(random.Random(cx["case_seed"]))
     try:
-        rtc.check_call(c, fn, case.get("args", ()), case.get("kwargs", {}), universe=case.get("universe"), self_obj=case.get("self"))
+        rtc.check_call(c, fn, case.get("args", ()), case.get("kwargs", {}), universe=case.get("universe"), self_obj=case.get("self"), ghost=case.get("ghost"))
     except rtc.ContractViolation as cv:
         return False, f"{c.target} violates its contract on {case.get('describe') or case.get('args')}: {cv}"
     return True, f"{c.target} satisfies its contract on the recorded input"
